@@ -4,12 +4,13 @@ import importlib, json, os, sys
 sys.path.insert(0, os.path.dirname(os.path.dirname(os.path.abspath(__file__))))
 V = os.path.dirname(os.path.dirname(os.path.abspath(__file__)))
 NOT_APPLICABLE = {}
+READY = open(os.path.join(V, 'tools', 'ready.txt')).read().split()
 props = [json.loads(l) for l in open(os.path.join(V, 'properties.jsonl'))]
 checks, na = [], []
 for p in props:
     pid = p['id']
     path = os.path.join(V, 'mc', 'props', pid.lower() + '.py')
-    if not os.path.exists(path):
+    if not os.path.exists(path) or pid not in READY:
         na.append({'property_id': pid, 'reason': NOT_APPLICABLE.get(pid, 'check not built yet (planned in DESIGN.md section 3); not claimed until it exists')})
         continue
     src = open(path).read()
